@@ -1312,6 +1312,447 @@ fn shrink(ctx: Ctx, tree: &SExp, kind: &str) -> (Ctx, SExp) {
     (ctx, tree)
 }
 
+
+// ------------------------------------------------------------------------------------------ source stream (statements, declarators, types)
+/// tree of a module without locations: Debug output with ` @ N` and `SourceLocation(N)` removed
+fn strip_locations(dbg: &str) -> String {
+    let b = dbg.as_bytes();
+    let mut out = String::with_capacity(b.len());
+    let mut i = 0;
+    while i < b.len() {
+        if b[i..].starts_with(b" @ ") {
+            let mut j = i + 3;
+            while j < b.len() && b[j].is_ascii_digit() {
+                j += 1;
+            }
+            if j > i + 3 {
+                i = j;
+                continue;
+            }
+        }
+        if b[i..].starts_with(b"SourceLocation(") {
+            let mut j = i + 15;
+            while j < b.len() && b[j].is_ascii_digit() {
+                j += 1;
+            }
+            if j < b.len() && b[j] == b')' {
+                out.push_str("L");
+                i = j + 1;
+                continue;
+            }
+        }
+        out.push(b[i] as char);
+        i += 1;
+    }
+    out
+}
+
+fn run_source(text: &str) -> Outcome {
+    let m1 = match guard(|| lex_parse(text)) {
+        Ok(Ok(m)) => m,
+        Ok(Err(e)) => {
+            return Outcome {
+                obs: "not-parsed".into(),
+                oracle: format!("SKIP:generated source is not accepted ({})", e),
+            };
+        }
+        Err(p) => {
+            return Outcome {
+                obs: "PANIC".into(),
+                oracle: format!("FAIL:panic {}", p),
+            };
+        }
+    };
+    let t1 = match guard(|| rssl_formatter::format(&m1, rssl_formatter::Target::Hlsl)) {
+        Ok(Ok(t)) => t,
+        Ok(Err(_)) => {
+            return Outcome {
+                obs: "not-printable".into(),
+                oracle: "SKIP:tree has an ambiguous parse branch (not printable)".into(),
+            };
+        }
+        Err(p) => {
+            return Outcome {
+                obs: "FMT-PANIC".into(),
+                oracle: format!("FAIL:panic {}", p),
+            };
+        }
+    };
+    let m2 = match guard(|| lex_parse(&t1)) {
+        Ok(Ok(m)) => m,
+        Ok(Err(e)) => {
+            return Outcome {
+                obs: format!("printed {} bytes ==> {}", t1.len(), e),
+                oracle: format!("FAIL:printed text is rejected ({}) text={}", e, one_line(&t1)),
+            };
+        }
+        Err(p) => {
+            return Outcome {
+                obs: "PANIC".into(),
+                oracle: format!("FAIL:panic {}", p),
+            };
+        }
+    };
+    let d1 = strip_locations(&format!("{:?}", m1));
+    let d2 = strip_locations(&format!("{:?}", m2));
+    if d1 != d2 {
+        let at = d1.bytes().zip(d2.bytes()).position(|(a, b)| a != b).unwrap_or(d1.len().min(d2.len()));
+        let lo = at.saturating_sub(60);
+        return Outcome {
+            obs: format!("printed {} bytes ==> tree differs", t1.len()),
+            oracle: format!(
+                "FAIL:tree differs after print+parse [module] near `{}` vs `{}` text={}",
+                &d1[lo..(at + 40).min(d1.len())],
+                &d2[lo..(at + 40).min(d2.len())],
+                one_line(&t1)
+            ),
+        };
+    }
+    match guard(|| rssl_formatter::format(&m2, rssl_formatter::Target::Hlsl)) {
+        Ok(Ok(t2)) if t2 == t1 => Outcome {
+            obs: format!("printed {} bytes ==> same tree", t1.len()),
+            oracle: "ok".into(),
+        },
+        _ => Outcome {
+            obs: format!("printed {} bytes ==> same tree", t1.len()),
+            oracle: "FAIL:second print differs from first".into(),
+        },
+    }
+}
+
+fn src_lexemes(text: &str) -> Vec<String> {
+    let cs: Vec<char> = text.chars().collect();
+    let mut out = Vec::new();
+    let mut i = 0;
+    let opch = |c: char| "<>=!&|+-*/%^:".contains(c);
+    while i < cs.len() {
+        let c = cs[i];
+        if c.is_whitespace() {
+            i += 1;
+        } else if c.is_alphanumeric() || c == '_' || c == '.' {
+            let st = i;
+            while i < cs.len() && (cs[i].is_alphanumeric() || cs[i] == '_' || cs[i] == '.') {
+                i += 1;
+            }
+            out.push(cs[st..i].iter().collect());
+        } else if opch(c) {
+            let st = i;
+            while i < cs.len() && opch(cs[i]) {
+                i += 1;
+            }
+            out.push(cs[st..i].iter().collect());
+        } else {
+            out.push(c.to_string());
+            i += 1;
+        }
+    }
+    out
+}
+
+/// delta debugging over lexemes, then canonical names / numbers; keeps the failure kind
+fn shrink_source(text: &str, kind: &str) -> String {
+    let mut toks = src_lexemes(text);
+    let mut budget: i32 = 30000;
+    let still = |t: &[String], budget: &mut i32| -> bool {
+        *budget -= 1;
+        fail_kind(&run_source(&t.join(" ")).oracle) == kind
+    };
+    if !still(&toks, &mut budget) {
+        return text.trim().to_string();
+    }
+    let mut again = true;
+    while again && budget > 0 {
+        again = false;
+        // chunks of decreasing size
+        let mut n = (toks.len() / 2).max(1);
+        loop {
+            let mut i = 0;
+            while i + n <= toks.len() && budget > 0 {
+                let mut cand = toks.clone();
+                cand.drain(i..i + n);
+                if !cand.is_empty() && still(&cand, &mut budget) {
+                    toks = cand;
+                    again = true;
+                } else {
+                    i += 1;
+                }
+            }
+            if n == 1 {
+                break;
+            }
+            n /= 2;
+        }
+        // bracket groups: drop the pair of brackets, or the whole group
+        let mut i = 0;
+        while i < toks.len() && budget > 0 {
+            let open = toks[i].as_str();
+            let close = match open {
+                "(" => ")",
+                "{" => "}",
+                "[" => "]",
+                _ => {
+                    i += 1;
+                    continue;
+                }
+            };
+            let mut depth = 0;
+            let mut j = i;
+            let mut found = None;
+            while j < toks.len() {
+                if toks[j] == open {
+                    depth += 1;
+                } else if toks[j] == close {
+                    depth -= 1;
+                    if depth == 0 {
+                        found = Some(j);
+                        break;
+                    }
+                }
+                j += 1;
+            }
+            if let Some(j) = found {
+                let mut cand = toks.clone();
+                cand.drain(i..=j);
+                if !cand.is_empty() && still(&cand, &mut budget) {
+                    toks = cand;
+                    again = true;
+                    continue;
+                }
+                let mut cand = toks.clone();
+                cand.remove(j);
+                cand.remove(i);
+                if still(&cand, &mut budget) {
+                    toks = cand;
+                    again = true;
+                    continue;
+                }
+                // statement heads: `kw ( … )` in front of a statement
+                if i > 0 {
+                    let mut cand = toks.clone();
+                    cand.drain(i - 1..=j);
+                    if !cand.is_empty() && still(&cand, &mut budget) {
+                        toks = cand;
+                        again = true;
+                        i -= 1;
+                        continue;
+                    }
+                }
+            }
+            i += 1;
+        }
+    }
+    for i in 0..toks.len() {
+        let first = toks[i].chars().next().unwrap_or(' ');
+        let repl = if first.is_ascii_digit() || first.is_alphabetic() || first == '_' {
+            "a"
+        } else {
+            continue;
+        };
+        if toks[i] != repl && budget > 0 {
+            let mut cand = toks.clone();
+            cand[i] = repl.to_string();
+            if still(&cand, &mut budget) {
+                toks = cand;
+            }
+        }
+    }
+    toks.join(" ")
+}
+
+struct SrcGen {
+    rng: Rng,
+    kinds: Hist,
+}
+
+impl SrcGen {
+    fn name(&mut self) -> &'static str {
+        *self.rng.pick(&["a", "b", "c", "i", "n", "x", "y"])
+    }
+    fn ty(&mut self) -> String {
+        let base = *self.rng.pick(&["float", "uint", "int", "float4", "float3x3", "S", "bool"]);
+        let mut t = match self.rng.below(12) {
+            0 => format!("vector<{}, {}>", *self.rng.pick(&["float", "uint"]), 2 + self.rng.below(3)),
+            1 => format!("matrix<float, {}, {}>", 2 + self.rng.below(3), 2 + self.rng.below(3)),
+            2 => "T<S, 4>".to_string(),
+            3 => "N::S".to_string(),
+            _ => base.to_string(),
+        };
+        match self.rng.below(10) {
+            0 => t = format!("const {}", t),
+            1 => t = format!("static {}", t),
+            2 => t = format!("static const {}", t),
+            3 => t = format!("precise {}", t),
+            4 => t = format!("row_major {}", t),
+            5 => t = format!("{} const", t),
+            _ => {}
+        }
+        t
+    }
+    fn expr(&mut self, d: u32) -> String {
+        if d == 0 || self.rng.chance(1, 4) {
+            return match self.rng.below(8) {
+                0 => format!("{}", self.rng.below(100)),
+                1 => format!("{}u", self.rng.below(100)),
+                2 => format!("{}.5f", self.rng.below(10)),
+                3 => "true".to_string(),
+                4 => format!("{}.25", self.rng.below(10)),
+                _ => self.name().to_string(),
+            };
+        }
+        match self.rng.below(14) {
+            0 => format!("{} + {}", self.expr(d - 1), self.expr(d - 1)),
+            1 => format!("{} * ({} - {})", self.expr(d - 1), self.expr(d - 1), self.expr(d - 1)),
+            2 => format!("{} < {}", self.expr(d - 1), self.expr(d - 1)),
+            3 => format!("{} && !{}", self.expr(d - 1), self.name()),
+            4 => format!("{}({}, {})", *self.rng.pick(&["f", "max", "dot"]), self.expr(d - 1), self.expr(d - 1)),
+            5 => format!("{}.{}", self.name(), *self.rng.pick(&["x", "xyz", "m"])),
+            6 => format!("{}[{}]", self.name(), self.expr(d - 1)),
+            7 => format!("{} ? {} : {}", self.expr(d - 1), self.expr(d - 1), self.expr(d - 1)),
+            8 => format!("-{}", self.expr(d - 1)),
+            9 => format!("{}++", self.name()),
+            10 => format!("({} = {})", self.name(), self.expr(d - 1)),
+            11 => format!("{} >> {}", self.expr(d - 1), self.expr(d - 1)),
+            12 => format!("{} == {}", self.expr(d - 1), self.expr(d - 1)),
+            _ => format!("({}, {})", self.expr(d - 1), self.expr(d - 1)),
+        }
+    }
+    fn init(&mut self, d: u32) -> String {
+        match self.rng.below(6) {
+            0 => format!("{{ {}, {} }}", self.expr(1), self.expr(1)),
+            1 if d > 0 => format!("{{ {}, {} }}", self.init(d - 1), self.init(d - 1)),
+            _ => self.expr(2),
+        }
+    }
+    fn declarator(&mut self) -> String {
+        let n = format!("v{}", self.rng.below(50));
+        match self.rng.below(10) {
+            0 => format!("{}[{}]", n, 1 + self.rng.below(4)),
+            1 => format!("{}[{}][{}]", n, 1 + self.rng.below(4), 1 + self.rng.below(4)),
+            2 => format!("{}[]", n),
+            3 => format!("*{}", n),
+            4 => format!("&{}", n),
+            5 => format!("{}[{}]", n, self.expr(1)),
+            _ => n,
+        }
+    }
+    fn decl(&mut self) -> String {
+        self.kinds.add("decl");
+        let mut s = format!("{} ", self.ty());
+        let k = 1 + self.rng.below(3);
+        for i in 0..k {
+            if i > 0 {
+                s.push_str(", ");
+            }
+            s.push_str(&self.declarator());
+            if self.rng.chance(1, 2) {
+                s.push_str(" = ");
+                s.push_str(&self.init(1));
+            }
+        }
+        s
+    }
+    fn stmt(&mut self, d: u32) -> String {
+        let attr = match self.rng.below(12) {
+            0 => "[unroll] ",
+            1 => "[loop] ",
+            2 => "[branch] ",
+            3 => "[unroll(4)] ",
+            _ => "",
+        };
+        let k = if d == 0 { self.rng.below(7) } else { self.rng.below(17) };
+        match k {
+            0 => {
+                self.kinds.add("empty");
+                ";".to_string()
+            }
+            1 | 2 => {
+                self.kinds.add("expr");
+                format!("{} = {};", self.name(), self.expr(2))
+            }
+            3 => format!("{};", self.decl()),
+            4 => {
+                self.kinds.add("return");
+                if self.rng.chance(1, 3) { "return;".to_string() } else { format!("return {};", self.expr(2)) }
+            }
+            5 => {
+                self.kinds.add("jump");
+                self.rng.pick(&["break;", "continue;", "discard;"]).to_string()
+            }
+            6 => {
+                self.kinds.add("call");
+                format!("f({});", self.expr(1))
+            }
+            7 => {
+                self.kinds.add("block");
+                let n = self.rng.below(4);
+                let body: Vec<String> = (0..n).map(|_| self.stmt(d - 1)).collect();
+                format!("{{ {} }}", body.join(" "))
+            }
+            8 => {
+                self.kinds.add("if");
+                format!("{}if ({}) {}", attr, self.expr(2), self.stmt(d - 1))
+            }
+            9 | 10 => {
+                self.kinds.add("ifelse");
+                format!("{}if ({}) {} else {}", attr, self.expr(2), self.stmt(d - 1), self.stmt(d - 1))
+            }
+            11 | 12 => {
+                self.kinds.add("for");
+                let init = match self.rng.below(3) {
+                    0 => String::new(),
+                    1 => format!("{} = {}", self.name(), self.expr(1)),
+                    _ => self.decl(),
+                };
+                let cond = if self.rng.chance(1, 4) { String::new() } else { self.expr(2) };
+                let inc = if self.rng.chance(1, 4) { String::new() } else { format!("{}++", self.name()) };
+                format!("{}for ({}; {}; {}) {}", attr, init, cond, inc, self.stmt(d - 1))
+            }
+            13 => {
+                self.kinds.add("while");
+                format!("{}while ({}) {}", attr, self.expr(2), self.stmt(d - 1))
+            }
+            14 => {
+                self.kinds.add("dowhile");
+                format!("do {} while ({});", self.stmt(d - 1), self.expr(2))
+            }
+            _ => {
+                self.kinds.add("switch");
+                let mut s = format!("switch ({}) {{ ", self.expr(1));
+                for c in 0..1 + self.rng.below(3) {
+                    s.push_str(&format!("case {}: {} ", c, self.stmt(d - 1)));
+                    if self.rng.chance(1, 2) {
+                        s.push_str("break; ");
+                    }
+                }
+                if self.rng.chance(2, 3) {
+                    s.push_str(&format!("default: {} ", self.stmt(d - 1)));
+                }
+                s.push('}');
+                s
+            }
+        }
+    }
+    fn module(&mut self) -> String {
+        let mut s = String::new();
+        if self.rng.chance(1, 3) {
+            s.push_str(&format!("static const {} g{} = {};\n", self.ty(), self.rng.below(9), self.init(1)));
+        }
+        if self.rng.chance(1, 4) {
+            s.push_str("struct S { float x; uint y[2]; float4 z : TEXCOORD0; };\n");
+        }
+        let n = 1 + self.rng.below(4);
+        let body: Vec<String> = (0..n).map(|_| self.stmt(3)).collect();
+        let params = match self.rng.below(4) {
+            0 => "",
+            1 => "float a, in uint b",
+            2 => "out float4 o, inout S s, float c[4]",
+            _ => "const float a = 1.5f",
+        };
+        s.push_str(&format!("{} f({}) {{ {} }}\n", *self.rng.pick(&["void", "float", "float4"]), params, body.join(" ")));
+        s
+    }
+}
+
 fn run_request(line: &str, out: &mut Out, hist: &mut Stats) {
     let f: Vec<&str> = line.split('\t').collect();
     match f.as_slice() {
@@ -1331,6 +1772,30 @@ fn run_request(line: &str, out: &mut Out, hist: &mut Stats) {
                 let key = format!("{} {} {}", kind, mc.name(), mt.show());
                 hist.classes.add(&key);
                 o.oracle = format!("{} min={}", o.oracle, key);
+            }
+            out.case(line, &o.obs, &o.oracle);
+        }
+        ["C09.src", hexsrc] => {
+            let text = match unhex(hexsrc).and_then(|b| String::from_utf8(b).ok()) {
+                Some(t) => t,
+                None => {
+                    out.case(line, "bad-request", "SKIP:bad request");
+                    return;
+                }
+            };
+            let mut o = run_source(&text);
+            hist.total += 1;
+            hist.ctx.add("src");
+            let k = if o.oracle == "ok" { "ok".to_string() } else { o.oracle.chars().take(48).collect() };
+            hist.outcome.add(&k);
+            if o.oracle.starts_with("FAIL") {
+                // key: failure kind + the source line by line reduced to the first failing prefix is out of reach here;
+                // the source text itself identifies the input
+                let kind = fail_kind(&o.oracle);
+                let min = shrink_source(&text, &kind);
+                let key = format!("src {} {}", kind, min);
+                hist.classes.add(&key);
+                o.oracle = format!("{} min={}", o.oracle.split(" text=").next().unwrap_or(""), key);
             }
             out.case(line, &o.obs, &o.oracle);
         }
@@ -1658,4 +2123,22 @@ pub fn run(args: &Args, out: &mut Out) {
         run_request(&line, out, &mut st);
     }
     out.stat(&st.json("random-exotic"));
+    // stream 4: parser-produced trees of whole modules: statements, declarators, types, initialisers, attributes
+    let mut sg = SrcGen {
+        rng: g.rng.fork(),
+        kinds: Hist::default(),
+    };
+    let mut st = Stats::default();
+    for _ in 0..(if thorough { 20000 } else { 1500 }) {
+        let text = sg.module();
+        let line = format!("C09.src\t{}", hex(text.as_bytes()));
+        run_request(&line, out, &mut st);
+    }
+    out.stat(&format!(
+        "{{\"stream\":\"source-modules\",\"cases\":{},\"statement_kinds\":{},\"outcomes\":{},\"minimal_failing_shapes\":{}}}",
+        st.total,
+        sg.kinds.json(),
+        st.outcome.json(),
+        st.classes.json()
+    ));
 }
